@@ -184,7 +184,9 @@ pub fn run(args: &Args) -> i32 {
                         check.violation("one-delivered-to-other-connection", format!("One({c}) event seq {} delivered to {got:?}", ev.seq), wit.clone());
                     }
                     if got.is_empty() {
-                        let target_live = est0.contains(c) && !closed0.contains(c) && snap.contains(c);
+                        // One(c) names its connection by id: the peer id given next to it does not have to be c's remote for the
+                        // event to be due (a tenth of the One events are emitted under another peer's id)
+                        let target_live = est0.contains(c) && !closed0.contains(c);
                         if target_live {
                             check.violation("one-lost-target-open", format!("One({c}) event seq {} never delivered although {c} is still open at the quiescent end", ev.seq), wit.clone());
                         } else {
